@@ -14,7 +14,7 @@ ROOT = os.path.dirname(os.path.dirname(os.path.abspath(__file__)))
 SPEC = os.path.join(ROOT, "spec")
 HARNESS = os.path.join(ROOT, "harness")
 BIN = os.path.join(HARNESS, "target", "release")
-WORK = os.path.join(ROOT, "work")
+WORK = os.environ.get("VERIF_WORK") or os.path.join(ROOT, "work")      # VERIF_WORK: a second lane next to a running one
 
 
 
@@ -32,16 +32,23 @@ def sh(cmd, timeout, cwd=None, env=None, out=None):
     if env:
         e.update(env)
     t0 = time.time()
+    # own process group: on a timeout the whole tree (tlapm's provers, TLC's JVM) is killed, not only the child
+    f = open(out, "w") if out else None
+    p = subprocess.Popen(cmd, cwd=cwd, env=e, stdout=f if out else subprocess.PIPE, stderr=subprocess.STDOUT,
+                         start_new_session=True)
     try:
-        if out:
-            with open(out, "w") as f:
-                p = subprocess.run(cmd, cwd=cwd, env=e, stdout=f, stderr=subprocess.STDOUT, timeout=timeout)
-            text = ""
-        else:
-            p = subprocess.run(cmd, cwd=cwd, env=e, stdout=subprocess.PIPE, stderr=subprocess.STDOUT, timeout=timeout)
-            text = p.stdout.decode("utf-8", "replace")
+        so, _ = p.communicate(timeout=timeout)
+        text = "" if out else so.decode("utf-8", "replace")
     except subprocess.TimeoutExpired:
+        try:
+            os.killpg(p.pid, 9)
+        except OSError:
+            pass
+        p.wait()
         raise ToolError("timeout after %ss: %s" % (timeout, " ".join(cmd)[:200]))
+    finally:
+        if f:
+            f.close()
     return p.returncode, text, time.time() - t0
 
 
